@@ -397,34 +397,35 @@ func (a syAct) String() string {
 // ---------------------------------------------------------------- the rig
 
 type syRig struct {
-	hist     *syHist
-	lock     bool // lock-step: handlers gated, wires held
-	topo     int  // 0 direct, 1 through the real Proxy, 2 through the real Demux
-	link     *Link
-	cc       grpc.ClientConnInterface
-	ctx      context.Context
-	cancel   context.CancelFunc
-	eps      []*Endpoint
-	stops    []func()
-	mu       sync.Mutex
-	ugates   map[int64]*syGate
-	sgates   map[int64]*syGate
-	hprogs   map[int64]syHProg
-	threads  []*syThread
-	streams  map[int]grpc.ClientStream
-	nextC    int64
-	faultIds map[uint64]bool // wire ids of the requests whose Write was reported as failed
-	ackLoss  atomic.Bool     // the next Write of the client delivers its envelope and then reports an error
-	srv      *goat.Server
-	linkA    *Link // an EARLIER connection of the same Server (doomed: its transport fails with calls in flight)
-	ccA      *goat.ClientConn
-	rvC2S    chan *Rpc // the two unbuffered channels of the rendezvous topology
-	rvS2C    chan *Rpc
-	rmsgs    map[int64]*wrapperspb.BytesValue // the caller's message object of each stream
-	dumpWait bool                             // quiescence by goroutine dumps only (a concurrent handler may leave a goroutine waiting for a mutex)
-	armed    map[string]*syThread
-	yieldF   func(pt string) // free-running yield policy
-	active   atomic.Int64    // stream handlers entered and not yet returned
+	hist        *syHist
+	lock        bool // lock-step: handlers gated, wires held
+	topo        int  // 0 direct, 1 through the real Proxy, 2 through the real Demux
+	link        *Link
+	cc          grpc.ClientConnInterface
+	ctx         context.Context
+	cancel      context.CancelFunc
+	eps         []*Endpoint
+	stops       []func()
+	mu          sync.Mutex
+	ugates      map[int64]*syGate
+	sgates      map[int64]*syGate
+	hprogs      map[int64]syHProg
+	threads     []*syThread
+	streams     map[int]grpc.ClientStream
+	nextC       int64
+	hideStreams bool            // C01 with a stream on the same connection: the stream's envelopes are kept out of the tap
+	faultIds    map[uint64]bool // wire ids of the requests whose Write was reported as failed
+	ackLoss     atomic.Bool     // the next Write of the client delivers its envelope and then reports an error
+	srv         *goat.Server
+	linkA       *Link // an EARLIER connection of the same Server (doomed: its transport fails with calls in flight)
+	ccA         *goat.ClientConn
+	rvC2S       chan *Rpc // the two unbuffered channels of the rendezvous topology
+	rvS2C       chan *Rpc
+	rmsgs       map[int64]*wrapperspb.BytesValue // the caller's message object of each stream
+	dumpWait    bool                             // quiescence by goroutine dumps only (a concurrent handler may leave a goroutine waiting for a mutex)
+	armed       map[string]*syThread
+	yieldF      func(pt string) // free-running yield policy
+	active      atomic.Int64    // stream handlers entered and not yet returned
 	// server-side backlog estimate (see wait): envelopes written by the client that are not unary requests / opens,
 	// envelopes still in flight towards the server, receives completed by handlers
 	c2sNoQueue atomic.Int64
@@ -466,7 +467,8 @@ func newSyRigOpt(topo int, byRef, lock, checkCtx bool) *syRig {
 	// the tap on the client's transport
 	cw, sw := l.C.OnWrite, l.S.OnWrite
 	l.C.OnWrite = func(e *Rpc) {
-		if syEnvTag(e, "sy-c") >= syFaultedBase && syEnvTag(e, "sy-c") < syDoomedBase {
+		if (r.hideStreams && !strings.Contains(e.GetHeader().GetMethod(), "/U")) ||
+			(syEnvTag(e, "sy-c") >= syFaultedBase && syEnvTag(e, "sy-c") < syDoomedBase) {
 			// the request of a call whose Write is reported as failed: not judged by the wire predicates
 			r.mu.Lock()
 			r.faultIds[e.GetId()] = true
